@@ -193,17 +193,19 @@ class Unit:
         self.parse()
 
     def parse(self):
-        txt = open(self.path).read()
+        self._cur_text = []
+        self._default_file = None
+        self._parse_text(open(self.path).read(), dep=False)
+        self._flush()
+
+    def _flush(self):
+        if self._cur_text:
+            self.items.append(("text", "\n".join(self._cur_text)))
+            self._cur_text = []
+
+    def _parse_text(self, txt, dep):
         lines = txt.split("\n")
-        default_file = None
         i = 0
-        cur_text = []
-
-        def flush():
-            if cur_text:
-                self.items.append(("text", "\n".join(cur_text)))
-                cur_text.clear()
-
         while i < len(lines):
             ln = lines[i]
             s = ln.strip()
@@ -217,13 +219,23 @@ class Unit:
                     elif k == "rlimit":
                         self.rlimit = float(v)
             elif s.startswith("//@file"):
-                default_file = s.split()[1]
-            elif s.startswith("//@include"):
-                p = os.path.join(VERIF, s.split()[1])
-                flush()
-                self.items.append(("include", (s.split()[1], open(p).read())))
+                self._default_file = s.split()[1]
+            elif s.startswith("//@include") or s.startswith("//@import"):
+                rel = s.split()[1]
+                p = os.path.join(VERIF, rel)
+                text = open(p).read()
+                self._flush()
+                if "/*@fn" in text or "/*@struct" in text or "//@include" in text or "//@import" in text:
+                    # a template fragment with directives: parsed in place. //@import = dependency:
+                    # its functions are re-verified here but their obligations belong to the unit that owns them
+                    saved = self._default_file
+                    self._parse_text(text, dep or s.startswith("//@import"))
+                    self._flush()
+                    self._default_file = saved
+                else:
+                    self.items.append(("include", (rel, text)))
             elif s.startswith("/*@struct") or s.startswith("/*@type"):
-                flush()
+                self._flush()
                 kind = "struct" if s.startswith("/*@struct") else "type"
                 hdr = s[len("/*@" + kind):]
                 hdr = hdr.replace("@*/", "")
@@ -231,12 +243,12 @@ class Unit:
                 for t in shlex.split(hdr):
                     k, v = t.split("=", 1)
                     opts[k] = v
-                opts.setdefault("file", default_file)
+                opts.setdefault("file", self._default_file)
                 opts["kind"] = kind
                 opts["tline"] = i + 1
                 self.items.append(("struct", opts))
             elif s.startswith("/*@fn"):
-                flush()
+                self._flush()
                 header = s[len("/*@fn"):]
                 body = []
                 tline = i + 1
@@ -247,13 +259,16 @@ class Unit:
                     while not lines[i].strip().startswith("@*/"):
                         body.append(lines[i])
                         i += 1
-                d = parse_fn_directive(header, "\n".join(body), default_file, self.props, tline)
+                d = parse_fn_directive(header, "\n".join(body), self._default_file, self.props, tline)
+                d.dep = dep
+                if dep:
+                    d.props = []
+                    d.opts["novac"] = True
                 self.fns.append(d)
                 self.items.append(("fn", d))
             else:
-                cur_text.append(ln)
+                self._cur_text.append(ln)
             i += 1
-        flush()
 
     # ------------------------------------------------------------------
     def request(self):
